@@ -315,6 +315,11 @@ def run(ck):
     # tx_timeout / route_timeout are the application's: re-addressing (_begin) must leave them alone (R04.6 frame condition)
     from . import c04
     c04.begin_structure(ck, agg, net.NetNode(ck, "rf24_network", "RF24Network"))
+    # who is "the last hop" and who waits is decided by comparing the destination with the next hop _logi_2_phys() computes (R04.5), and the
+    # hardware ACK of that hop is heard only if open_tx_pipe() put pipe 0 on the TX address (R08.x, shared with C04 / C08)
+    c04.next_hop(ck, agg, net.NetNode(ck, "rf24_network", "RF24Network"))
+    c04.child_window(ck, agg, net.NetNode(ck, "rf24_network", "RF24Network"))
+    c08.run_for(ck, Radio(ck), agg)
     agg.flush()
     ck.floor("R13.7", "timed re-send paths", n4, 2)
     ck.floor("R13.1", "message types", n1, 256)
